@@ -230,4 +230,25 @@ example :
   unfold isOpen NoCite UrlStableOn
   decide
 
+/-! ### the known finding `important-dropped`, on the model -/
+
+/-- a matcher a user might supply for `float`: lower-case letters, spaces and `!` -/
+def lettersAndBang : Re := .cat .bot (.cat (.plus (.cls [(32, 33), (97, 122)])) .eot)
+
+/-- `AllowStyles("float").Matching(^[a-z !]+$).Globally()`, `b` allowed, `style` allowed globally -/
+def importantPolicy : Policy :=
+  { initialized := true, elsAndAttrs := [(b!"b", [])], globalAttrs := [(b!"style", [Option.none])],
+    globalStyles := [(b!"float", [{ re := some ⟨1, Re.matchBytes lettersAndBang⟩ }])] }
+
+/-- policies with style rules are outside every C20 theorem above, and this is why: the declaration parser takes one
+    trailing `!important` off the value, `sanitizeStyles` writes `property: value` without it, and a matcher that
+    accepts `!important` as text lets a further one through — so each pass removes one and
+    `Sanitize(Sanitize(x)) ≠ Sanitize(x)`.  The model shows what the implementation shows (known finding
+    `important-dropped`, D22; with the default handlers a repeated `!important` is refused). -/
+example :
+    importantPolicy.sanitizeCore b!"<b style=\"float: left !important !important !important\">t</b>" =
+      b!"<b style=\"float: left !important !important\">t</b>" ∧
+    importantPolicy.sanitizeCore b!"<b style=\"float: left !important !important\">t</b>" =
+      b!"<b style=\"float: left !important\">t</b>" := by decide
+
 end BM.Props
